@@ -11,6 +11,9 @@ Added after seed C17_2: the real `main` + writers harness of C03 for pairs of re
 (and symbolic, possibly equal, label ranges in possibly different files): what is displayed for one
 report must not depend on which other report was displayed before it (each report passing the filters
 is displayed exactly once), so the displayed multiset does not depend on the order of files / definitions.
+
+Hash-map orders inside a pass: the whole side-effect pass (C09's harness) is run three times per program with
+every HashMap / HashSet iterated in insertion, reverse and rotated order; the multiset of claims must be equal.
 """
 from . import common, C03
 
@@ -25,6 +28,9 @@ def main(tier, replay=None):
         ts = [dict(k, prop='C17') for k in c3.RUNNER_SHAPES('thorough' if tier == 'thorough' else 'quick')]
         n = 2 if tier == 'quick' else 3
         ts += [{'kind': 'main', 'allow': a, 'sarif': sf, 'codes': [c] * n, 'prop': 'C17'} for a in (0, 1) for sf in (False, True) for c in range(len(c3.CODES))]
+        # hash-map iteration orders inside a pass: the side-effect pass under three iteration orders (templates; thorough: functions too)
+        from . import C09
+        ts += [{'kind': 'orders', 't': dict(t, orders=True), 'prop': 'C17'} for t in C09.tasks(tier) if tier == 'thorough' or t['dt'] == 'Template']
         return ts
     c3.tasks = tasks17
     orig_is = c3.is_c02_violation
